@@ -308,15 +308,26 @@ static void setup(void)
 	capturing = 0;
 }
 
+#include <sys/mount.h>
+#include <sys/statvfs.h>
+static void shm_resize(int nearly_full)
+{
+	char opt[64];
+	struct statvfs v;
+	if (statvfs("/dev/shm", &v) != 0) vp_broken("statvfs(/dev/shm)");
+	snprintf(opt, sizeof opt, "size=%llu,mode=1777", nearly_full ? (unsigned long long)(v.f_blocks - v.f_bfree) * v.f_bsize + 12288ULL : 1ULL << 30);      /* the header file takes three pages */
+	if (mount("tmpfs", "/dev/shm", "tmpfs", MS_REMOUNT, opt) != 0) vp_broken("cannot resize the private /dev/shm (%s): %s", opt, strerror(errno));
+}
+
 static const char *small_files[] = { "", "x", "\0\0\0\0", "\xff\xff\xff\xff\xff\xff\xff\xff\xff\xff\xff\xff\xff\xff\xff\xff\xff\xff\xff\xff\xff\xff\xff\xff" };
 
 static void run_damage(void)
 {
-	int b = vp_choose(nbase, "base dump"), kind = vp_choose(byteflip ? 7 : 6, "damage kind"), rc;
+	int b = vp_choose(nbase, "base dump"), kind = vp_choose(byteflip ? 8 : 6, "damage kind"), rc, shm_full = 0;
 	size_t len = base_len[b];
 	unsigned char *f = malloc(len + 64);
 	char before[4096], after[4096];
-	static const char *kn[] = { "truncate", "header word", "two header words", "record field", "arbitrary small file", "crafted format", "byte flip" };
+	static const char *kn[] = { "truncate", "header word", "two header words", "record field", "arbitrary small file", "crafted format", "byte flip", "intact dump, shared memory nearly full" };
 	memcpy(f, base[b], len);
 	if (kind == 0) {
 		/* every truncation length: all below 256, then every 16th byte plus the last 64 */
@@ -380,6 +391,10 @@ static void run_damage(void)
 		memset(f + msg_off[b], 0, msg_len[b]);
 		memcpy(f + msg_off[b], fm, (size_t)l);
 		vp_log("format of the oldest record := '%.60s%s'", fm, l > 60 ? "..." : "");
+	} else if (kind == 7) {
+		/* the reader cannot create the ring it needs: room for the header file, none for the data file.  It has to
+		   give up with a result code and take back what it had created (private tmpfs of this worker, resized) */
+		shm_full = 1;
 	} else {
 		size_t pos = (size_t)vp_choose((int)len, "byte");
 		/* headers and the first records byte by byte, the rest is covered by the field damage */
@@ -392,7 +407,9 @@ static void run_damage(void)
 	unlink("/dev/shm/qb-create_from_file-header"); unlink("/dev/shm/qb-create_from_file-data");
 	list_shm(before, sizeof before);
 	capn = 0; cap[0] = 0;
+	if (shm_full) shm_resize(1);
 	rc = qb_log_blackbox_print_from_file(dmgf);
+	if (shm_full) { shm_resize(0); if (capn > 0) vp_broken("the dump was printed although /dev/shm should have had no room for its ring"); }
 	vp_log("print_from_file = %d", rc);
 	list_shm(after, sizeof after);
 	if (strcmp(before, after)) vp_fail("printing a damaged dump left files in /dev/shm: before '%s' after '%s'", before, after);
